@@ -29,7 +29,8 @@ class C20(object):
                    'tolerance line 1e-6..1e-9, default cap 400 of the template']
     required_counters = ('module.ran', 'module.ran.with_variables_named_like_template_locals', 'module.ran.with_variable_T_next_to_t', 'module.ran.with_own_time_variable_and_lagged_step_counter', 'equations_judged', 'vs_inprocess.compared', 'header.judged',
                          'module.without_user_time', 'generator.reused', 'bundled.ran',
-                         'module.ran.with_expressions_that_look_like_lag_spellings')
+                         'module.ran.with_expressions_that_look_like_lag_spellings',
+                         'generator.warning_raised_and_caught')
 
     def n_cases(self, tier):
         return 120 if tier == 'quick' else 6000
@@ -75,7 +76,12 @@ class C20(object):
             # model variables named like the locals of the generated step function
             case['text'] = 'err = 0.5*%s - 1.0\ncnt = 2.0*%s + 3.0\nnew_vector = 0.25*err\n' % (xs[0], xs[0]) + case['text']
             case['template_local_names'] = True
-        if case['reuse'] == 'other_block_first':
+        if idx % 8 == 6:
+            # warnings are errors in this process: the generator's report about an ignored line is RAISED while it reads the
+            # second block; the caller catches it and emits the module anyway
+            case['reuse'] = 'warning_raised_while_reading_second_block'
+            case['text'] = 'zz_bad = %s(k-1) + 1\n' % xs[0] + case['text']
+        if case['reuse'] in ('other_block_first', 'warning_raised_while_reading_second_block'):
             other = G.gen_affine(rng, rho=0.5, tol=1e-8, maxtime=rng.randint(1, 4), ics=False)
             for e in other['exos']:
                 if e['form'] == 'scalar':
@@ -163,6 +169,16 @@ class C20(object):
                         gen = IterativeMachineGenerator(case['other_text'], run_equation_reduction=case['gen_reduction'])
                         gen.main(os.path.join(tmp, 'first_module.py'))
                         gen.ParseString(case['text'])
+                    elif reuse == 'warning_raised_while_reading_second_block':
+                        import warnings
+                        gen = IterativeMachineGenerator(case['other_text'], run_equation_reduction=case['gen_reduction'])
+                        gen.main(os.path.join(tmp, 'first_module.py'))
+                        with warnings.catch_warnings():
+                            warnings.simplefilter('error')
+                            try:
+                                gen.ParseString(case['text'])
+                            except Warning:
+                                rec.count('generator.warning_raised_and_caught')
                     else:
                         gen = IterativeMachineGenerator(case['text'], run_equation_reduction=case['gen_reduction'])
                     if reuse == 'main_twice':
